@@ -233,5 +233,12 @@ func (p *c04Pair) runBlock(co *caseOut, in c04BlockInput) {
 			nontriv = true
 		}
 	}
-	co.add(kind, fmt.Sprintf("k%d/%s", len(txs), strings.Join(ends, "-")), nontriv, in, impl, term)
+	tag := fmt.Sprintf("k%d/%s", len(txs), strings.Join(ends, "-"))
+	for _, t := range in.Ops {
+		if c04SeqOf(t.Ops).any(func(x *c04Node) bool { return x.T }) {
+			tag += "/callt"
+			break
+		}
+	}
+	co.add(kind, tag, nontriv, in, impl, term)
 }
